@@ -974,9 +974,12 @@ func init() {
 	}
 }
 
-func c11Case(in c11In) Case {
+func c11Case(in c11In) Case { return c11CaseObs(in, c11Run(in), nil, nil) }
+
+// c11CaseObs builds the case for one call given the observed outcome; extra (sequence / concurrent
+// provenance, needed to replay) is merged into the description and the distinctness key
+func c11CaseObs(in c11In, out c11Out, extra map[string]any, moreTags []string) Case {
 	sp := specByName[in.Fn]
-	out := c11Run(in)
 	vals := make([]string, len(in.Args))
 	cst := make([]bool, len(in.Args))
 	parts := make([]string, len(in.Args))
@@ -1036,10 +1039,320 @@ func c11Case(in c11In) Case {
 			tags = append(tags, "domain-of-fixed:"+id)
 		}
 	}
+	tags = append(tags, moreTags...)
+	desc := map[string]any{"input": in, "impl": out}
+	for k, v := range extra {
+		desc[k] = v
+	}
 	kb, _ := json.Marshal(in)
-	return Case{Coq: coq, Desc: map[string]any{"input": in, "impl": out}, Key: string(kb),
-		Nontrivial: !marker || anyGroup, Tags: tags}
+	key := string(kb)
+	if extra != nil {
+		eb, _ := json.Marshal(extra)
+		key += string(eb)
+	}
+	return Case{Coq: coq, Desc: desc, Key: key, Nontrivial: !marker || anyGroup, Tags: tags}
 }
+
+// ---------------------------------------------------------------------------------------------
+// One compiled expression, many evaluations.  rare compiles a key builder once and shares it between
+// all worker goroutines, so the value of a compiled call on a context must not depend on earlier
+// evaluations (a memo, a scratch buffer captured by the stage) nor on evaluations running at the same
+// time.  SEQUENCE cases evaluate one compiled call over a sequence of contexts, CONCURRENT cases from
+// several goroutines at once; every single result is a case of its own, compared with the model value
+// for that context alone.
+
+type c11Multi struct {
+	Mode     string     `json:"mode"` // sequence | concurrent
+	Optimize bool       `json:"optimize"`
+	Shape    c11In      `json:"shape"`    // the call as compiled: constants, and which arguments are groups
+	Steps    [][]string `json:"steps"`    // per context: hex values of the group arguments, in order
+	Index    int        `json:"index"`    // which step / context this case reports
+	Workers  int        `json:"workers,omitempty"`
+	Iters    int        `json:"iters,omitempty"`
+}
+
+func c11GroupPositions(shape c11In) []int {
+	var pos []int
+	for i, a := range shape.Args {
+		if !a.Const {
+			pos = append(pos, i)
+		}
+	}
+	return pos
+}
+
+// the call a context amounts to: the shape with the group arguments replaced by the context's values
+func c11Instantiate(shape c11In, step []string) c11In {
+	in := c11In{Fn: shape.Fn, Args: append([]c11Arg(nil), shape.Args...)}
+	for j, i := range c11GroupPositions(shape) {
+		v := ""
+		if j < len(step) {
+			v = step[j]
+		}
+		in.Args[i] = c11Arg{Const: false, Val: v, Text: strconv.QuoteToASCII(unhex(v))}
+	}
+	return in
+}
+
+func c11StepGroups(step []string) []string {
+	g := make([]string, len(step))
+	for i, h := range step {
+		g[i] = unhex(h)
+	}
+	return g
+}
+
+// runs the sequence on ONE compiled builder; returns the outcome of every step (stops after a panic at
+// compile time or a hang)
+func c11RunSequence(m c11Multi) []c11Out {
+	tpl, _ := c11Template(m.Shape)
+	outs := make([]c11Out, 0, len(m.Steps))
+	var eval func(groups []string) string
+	outcome, pv := Guarded(c11CallLimit, func() {
+		kb, _ := stdlib.NewStdKeyBuilderEx(m.Optimize).Compile(tpl)
+		eval = func(groups []string) string { return kb.BuildKey(&c11Ctx{groups}) }
+	})
+	if outcome != "ok" {
+		o := c11Out{Template: tpl, Outcome: outcome, Panic: outcome == "panic", Hang: outcome == "hang", Note: fmt.Sprint("at compile time: ", pv)}
+		if o.Hang {
+			c11HungFn[m.Shape.Fn]++
+		}
+		return append(outs, o)
+	}
+	for _, st := range m.Steps {
+		var s string
+		groups := c11StepGroups(st)
+		outcome, pv := Guarded(c11CallLimit, func() { s = eval(groups) })
+		o := c11Out{Template: tpl, Outcome: outcome}
+		switch outcome {
+		case "hang":
+			o.Hang = true
+			o.Note = fmt.Sprintf("did not return within %v", c11CallLimit)
+			c11Hung[c11Class(c11Instantiate(m.Shape, st))] = true
+			c11HungFn[m.Shape.Fn]++
+		case "panic":
+			o.Panic = true
+			o.Note = fmt.Sprint(pv)
+		default:
+			o.Out = hex.EncodeToString([]byte(s))
+			o.Text = strconv.QuoteToASCII(s)
+		}
+		outs = append(outs, o)
+		if o.Hang {
+			break
+		}
+	}
+	return outs
+}
+
+// runs the contexts concurrently on ONE compiled builder: worker w evaluates context w mod len(Steps)
+// Iters times after a common start barrier.  Per context the reported outcome is the first result that
+// differs from the value a fresh builder gives for that context alone (or a panic), else that value.
+func c11RunConcurrent(m c11Multi) []c11Out {
+	tpl, _ := c11Template(m.Shape)
+	n := len(m.Steps)
+	outs := make([]c11Out, n)
+	type dev struct {
+		panicked bool
+		note     string
+		val      string
+		seen     bool
+	}
+	devs := make([]dev, m.Workers)
+	ref := make([]string, n)
+	outcome, pv := Guarded(20*time.Second, func() {
+		for j, st := range m.Steps {
+			kb, _ := stdlib.NewStdKeyBuilderEx(m.Optimize).Compile(tpl)
+			ref[j] = kb.BuildKey(&c11Ctx{c11StepGroups(st)})
+		}
+		kb, _ := stdlib.NewStdKeyBuilderEx(m.Optimize).Compile(tpl)
+		start := make(chan struct{})
+		done := make(chan int, m.Workers)
+		for w := 0; w < m.Workers; w++ {
+			go func(w int) {
+				defer func() {
+					if e := recover(); e != nil {
+						devs[w] = dev{panicked: true, note: fmt.Sprint(e), seen: true}
+					}
+					done <- w
+				}()
+				j := w % n
+				ctx := &c11Ctx{c11StepGroups(m.Steps[j])}
+				<-start
+				for it := 0; it < m.Iters; it++ {
+					if v := kb.BuildKey(ctx); v != ref[j] && !devs[w].seen {
+						devs[w] = dev{val: v, seen: true, note: fmt.Sprintf("evaluation %d of worker %d", it, w)}
+					}
+				}
+			}(w)
+		}
+		close(start)
+		for w := 0; w < m.Workers; w++ {
+			<-done
+		}
+	})
+	for j := range outs {
+		outs[j] = c11Out{Template: tpl, Outcome: "ok", Out: hex.EncodeToString([]byte(ref[j])), Text: strconv.QuoteToASCII(ref[j])}
+	}
+	if outcome != "ok" {
+		c11HungFn[m.Shape.Fn] += c11MaxHangsPerHelper
+		outs[0] = c11Out{Template: tpl, Outcome: outcome, Panic: outcome == "panic", Hang: outcome == "hang", Note: fmt.Sprint("concurrent batch: ", pv)}
+		return outs
+	}
+	for w, d := range devs {
+		if !d.seen {
+			continue
+		}
+		j := w % n
+		if d.panicked {
+			outs[j] = c11Out{Template: tpl, Outcome: "panic", Panic: true, Note: d.note}
+		} else if outs[j].Outcome == "ok" && outs[j].Note == "" {
+			outs[j] = c11Out{Template: tpl, Outcome: "ok", Out: hex.EncodeToString([]byte(d.val)), Text: strconv.QuoteToASCII(d.val),
+				Note: "differs from the value of this context alone (" + strconv.QuoteToASCII(ref[j]) + "): " + d.note}
+		}
+	}
+	return outs
+}
+
+func c11MultiCases(m c11Multi) []Case {
+	var outs []c11Out
+	if m.Mode == "concurrent" {
+		outs = c11RunConcurrent(m)
+	} else {
+		outs = c11RunSequence(m)
+	}
+	opt := "unoptimised"
+	if m.Optimize {
+		opt = "optimised"
+	}
+	var cs []Case
+	for k, o := range outs {
+		mk := m
+		mk.Index = k
+		if m.Mode == "sequence" {
+			mk.Steps = m.Steps[:k+1] // the history a replay needs
+		}
+		tags := []string{"mode=" + m.Mode, m.Mode + "-" + opt}
+		if m.Mode == "sequence" {
+			if k > 0 && strings.Join(m.Steps[k], ",") == strings.Join(m.Steps[k-1], ",") {
+				tags = append(tags, "sequence-same-context-again")
+			}
+			if k == 0 {
+				tags = append(tags, "sequence-first")
+			}
+		}
+		cs = append(cs, c11CaseObs(c11Instantiate(m.Shape, m.Steps[k]), o, map[string]any{"multi": mk}, tags))
+	}
+	return cs
+}
+
+var c11JunkValues = []string{"", " ", "abc", "<BAD-TYPE>", "NaN", "1e400", "-", "\"", ",", "\x00", "9223372036854775808", "\u00a0"}
+
+// a compiled shape for helper sp (most arguments as groups) and a list of contexts drawn from the
+// helper's own generator: all-empty probe-like context first, a context twice in a row, non-numbers /
+// markers between proper values, earlier contexts again in another order
+func c11MultiShape(r *Rng, sp *fspec) (c11In, [][]string, bool) {
+	var base []c11Arg
+	for try := 0; try < 20; try++ {
+		base = sp.gen(r)
+		if len(base) > 0 {
+			break
+		}
+	}
+	if len(base) == 0 {
+		return c11In{}, nil, false
+	}
+	shape := c11In{Fn: sp.name, Args: base}
+	pos := c11GroupPositions(shape)
+	if len(pos) == 0 { // make the principal argument a group
+		shape.Args[0].Const = false
+		pos = []int{0}
+	}
+	draw := func() []string {
+		for try := 0; try < 30; try++ {
+			a := sp.gen(r)
+			if len(a) != len(base) {
+				continue
+			}
+			st := make([]string, len(pos))
+			for j, i := range pos {
+				st[j] = a[i].Val
+			}
+			return st
+		}
+		st := make([]string, len(pos))
+		for j, i := range pos {
+			st[j] = base[i].Val
+		}
+		return st
+	}
+	junk := func() []string {
+		st := make([]string, len(pos))
+		for j := range st {
+			st[j] = hex.EncodeToString([]byte(Pick(r, c11JunkValues)))
+		}
+		return st
+	}
+	empty := make([]string, len(pos))
+	d1, d2, d3 := draw(), draw(), draw()
+	jk := junk()
+	steps := [][]string{empty, empty, d1, d1, d2, jk, jk, d2, d3, junk(), d1, empty, d3, d2}
+	return shape, steps, true
+}
+
+func c11MultiGen(r *Rng, tier string) []Case {
+	var cs []Case
+	rounds := 1
+	if tier == "thorough" {
+		rounds = 6
+	}
+	for round := 0; round < rounds; round++ {
+		for i := range specs {
+			sp := &specs[i]
+			if c11HungFn[sp.name] >= c11MaxHangsPerHelper {
+				continue
+			}
+			shape, steps, ok := c11MultiShape(r, sp)
+			if !ok {
+				continue
+			}
+			skip := false
+			for _, st := range steps {
+				if c11Skip(c11Instantiate(shape, st)) {
+					skip = true
+				}
+			}
+			if skip {
+				continue
+			}
+			for _, opt := range []bool{true, false} {
+				cs = append(cs, c11MultiCases(c11Multi{Mode: "sequence", Optimize: opt, Shape: shape, Steps: steps})...)
+			}
+			if c11HungFn[sp.name] > 0 {
+				continue
+			}
+			// concurrent: distinct contexts, one per worker
+			workers := r.Range(4, 8)
+			var ctxs [][]string
+			seen := map[string]bool{}
+			for _, st := range steps {
+				k := strings.Join(st, ",")
+				if !seen[k] && len(ctxs) < workers {
+					seen[k] = true
+					ctxs = append(ctxs, st)
+				}
+			}
+			// 60000 evaluations per worker: a torn two-field memo shows up in about 4 of 5 such batches
+			// (2500 evaluations: 1 of 12), and the whole helper table still takes about a second
+			for _, opt := range []bool{true, false} {
+				cs = append(cs, c11MultiCases(c11Multi{Mode: "concurrent", Optimize: opt, Shape: shape, Steps: ctxs,
+					Workers: workers, Iters: 60000})...)
+			}
+		}
+	}
+	return cs
+}
+
 
 // arity faults: drop or add arguments
 func arityFault(r *Rng, a []c11Arg) []c11Arg {
@@ -1127,6 +1440,7 @@ func c11Sweep(r *Rng) []Case {
 
 func c11Gen(r *Rng, n int, tier string) []Case {
 	cases := c11Sweep(r)
+	cases = append(cases, c11MultiGen(r.Fork(), tier)...)
 	base := len(cases)
 	skipped := 0
 	for len(cases) < base+n {
@@ -1156,10 +1470,39 @@ func c11Gen(r *Rng, n int, tier string) []Case {
 
 func c11Replay(desc json.RawMessage) (Case, error) {
 	var d struct {
-		Input c11In `json:"input"`
+		Input c11In     `json:"input"`
+		Multi *c11Multi `json:"multi"`
 	}
 	if err := json.Unmarshal(desc, &d); err != nil {
 		return Case{}, err
+	}
+	if d.Multi != nil { // re-run the whole sequence / concurrent batch and report the recorded step
+		if specByName[d.Multi.Shape.Fn] == nil {
+			return Case{}, fmt.Errorf("unknown function %q", d.Multi.Shape.Fn)
+		}
+		var cs []Case
+		attempts := 1
+		if d.Multi.Mode == "concurrent" {
+			attempts = 8 // an interleaving is not reproducible at will: repeat the batch until one deviates
+		}
+		for a := 0; a < attempts; a++ {
+			cs = c11MultiCases(*d.Multi)
+			if len(cs) == 0 {
+				return Case{}, fmt.Errorf("empty %s case", d.Multi.Mode)
+			}
+			if d.Multi.Mode == "concurrent" { // prefer a context that deviates in this run
+				for _, c := range cs {
+					if strings.Contains(fmt.Sprint(c.Desc), "differs from the value of this context alone") || strings.Contains(c.Coq, " oP") || strings.Contains(c.Coq, " oH") {
+						return c, nil
+					}
+				}
+			}
+		}
+		k := d.Multi.Index
+		if k >= len(cs) {
+			k = len(cs) - 1
+		}
+		return cs[k], nil
 	}
 	if specByName[d.Input.Fn] == nil {
 		return Case{}, fmt.Errorf("unknown function %q", d.Input.Fn)
@@ -1178,7 +1521,7 @@ func main() {
 			"deterministic sweep covers hi/expbucket/bucket/bucketrange over the whole integer boundary set and csv over " +
 			"every special character (boundary values by increasing magnitude, int64 extremes last). Every call runs on its own " +
 			"goroutine with a 2 s limit: the outcome ok/panic/hang is part of the observable, a panic or hang fails the property; after a hang " +
-			"further calls of the same helper and argument class (arity, sign and digit count of integer arguments) are skipped. Non-trivial: the output is not an error marker, or an argument came from a match group. " +
+			"further calls of the same helper and argument class (arity, sign and digit count of integer arguments) are skipped. SEQUENCE cases: per helper one call compiled once (optimised and unoptimised) and evaluated over 14 contexts (all-empty first and again, a value twice in a row, a non-number twice in a row between values, earlier contexts again in another order); CONCURRENT cases: the same compiled call evaluated 60000 times from each of 4-8 goroutines over different contexts after a start barrier (optimised and unoptimised); every single result is compared with the model value of its own context. Non-trivial: the output is not an error marker, or an argument came from a match group. " +
 			"Distinct: by (function, argument values, constant/group).",
 		Gen:    c11Gen,
 		Replay: c11Replay,
